@@ -23,6 +23,7 @@ import (
 	"github.com/libp2p/go-libp2p/core/peer"
 	"github.com/OffchainLabs/go-bitfield"
 
+	"github.com/obolnetwork/charon/app/eth2wrap"
 	"github.com/obolnetwork/charon/app/retry"
 	"github.com/obolnetwork/charon/core"
 	"github.com/obolnetwork/charon/core/aggsigdb"
@@ -109,6 +110,9 @@ type Cluster struct {
 	View func(node int, slot uint64) int
 	// BeaconErr, if set, may fail node i's k-th attestation-data call with a transient error.
 	BeaconErr func(node int, call int) error
+	// WireOpts, if set, returns extra core.Wire options for node i, applied before the async-retry
+	// option (e.g. core.WithTracking with a recording tracker, as production wiring does).
+	WireOpts func(node int) []core.WireOption
 }
 
 // Node is one charon node.
@@ -154,6 +158,13 @@ func (s *Sched) GetDutyDefinition(_ context.Context, d core.Duty) (core.DutyDefi
 		return nil, core.ErrNotFound
 	}
 	return set.Clone()
+}
+
+// SetDef makes GetDutyDefinition resolve a duty without triggering it.
+func (s *Sched) SetDef(d core.Duty, set core.DutyDefinitionSet) {
+	s.mu.Lock()
+	s.defs[d] = set
+	s.mu.Unlock()
 }
 
 // Trigger resolves and triggers a duty like the scheduler does: one clone per subscriber.
@@ -326,6 +337,13 @@ func (c *Cluster) StartNode(i int) *Node {
 		}
 		return c.AttData(view, slot, comm), nil
 	}
+	n.Beacon.Vals = func() eth2wrap.ActiveValidators {
+		m := eth2wrap.ActiveValidators{}
+		for _, v := range c.Vals {
+			m[v.Index] = eth2p0.BLSPubKey(v.PubKey)
+		}
+		return m
+	}
 	eth2Cl := n.Beacon
 
 	deadlineFunc, err := core.NewDutyDeadlineFunc(ctx, eth2Cl)
@@ -368,7 +386,12 @@ func (c *Cluster) StartNode(i int) *Node {
 		func() func(int) *time.Timer {
 			return func(i int) *time.Timer { return time.NewTimer(time.Duration(250*(i+1)) * time.Millisecond) }
 		})
-	core.Wire(n.Sched, fetch, n.Cons, n.DutyDB, n.VAPI, n.ParSigDB, n.ParSigEx, n.SigAgg, n.AggSigDB, recorder{n}, core.WithAsyncRetry(retryer))
+	var wireOpts []core.WireOption
+	if c.WireOpts != nil {
+		wireOpts = append(wireOpts, c.WireOpts(i)...)
+	}
+	wireOpts = append(wireOpts, core.WithAsyncRetry(retryer))
+	core.Wire(n.Sched, fetch, n.Cons, n.DutyDB, n.VAPI, n.ParSigDB, n.ParSigEx, n.SigAgg, n.AggSigDB, recorder{n}, wireOpts...)
 
 	n.Cons.Start(ctx)
 	verifrt.Go(func() { n.ParSigDB.Trim(ctx) })
